@@ -1131,15 +1131,19 @@ class ECDHKeyExchange(RawDHKeyExchange):
             ecdhYc = ecdsa.ellipticcurve.Point(
                 curve.curve, point[0], point[1])
 
-        except AssertionError:
+        except (AssertionError, ecdsa.errors.MalformedPointError):
             raise TLSIllegalParameterException("Invalid ECC point")
         except DecodeError:
             raise TLSDecodeError("Empty point formats extension")
         if isinstance(private, ecdsa.keys.SigningKey):
             ecdh = ecdsa.ecdh.ECDH(curve=curve, private_key=private)
-            ecdh.load_received_public_key_bytes(peer_share,
-                                                valid_encodings=
-                                                valid_point_formats)
+            try:
+                ecdh.load_received_public_key_bytes(peer_share,
+                                                    valid_encodings=
+                                                    valid_point_formats)
+            except (AssertionError, ecdsa.errors.MalformedPointError):
+                # e.g. a coordinate that is not reduced modulo p
+                raise TLSIllegalParameterException("Invalid ECC point")
             return bytearray(ecdh.generate_sharedsecret_bytes())
         S = ecdhYc * private
 
